@@ -1243,3 +1243,339 @@ def run(ctx) -> None:  # noqa: F811
         ctx.require(n >= 2, f"R-WEIGHTLINEAR examined only {n} functions that call _unpack_distributions")
 
     deferred.run(ctx, new, _inner_run_c03e)
+
+
+# ---- added after the seeded change C03-r6seed2: what a distribution-valued parameter undergoes between the user and
+# ---- the kernel (sign-flipping aliases, scalings, validate_distribution) keeps its weights and its ensemble_mean flag
+_inner_run_c03f = run
+
+_UNARY_DUNDER = {ast.USub: ("__neg__", "negation"), ast.UAdd: ("__pos__", "unary plus")}
+_BINARY_DUNDER = {ast.Mult: ("mul", "product"), ast.Div: ("truediv", "quotient"), ast.Add: ("add", "sum"),
+                  ast.Sub: ("sub", "difference"), ast.FloorDiv: ("floordiv", "floor quotient"),
+                  ast.Pow: ("pow", "power"), ast.Mod: ("mod", "remainder"), ast.MatMult: ("matmul", "matrix product")}
+_NEVER_A_DISTRIBUTION = {"Number", "str", "int", "float", "complex", "bool", "tuple", "list", "dict", "ndarray",
+                         "SupportsFloat", "Real", "Integral"}
+
+
+def _distribution_classes(repo):
+    base = repo.cls(DIST, "BaseDistribution")
+    out, other = [], []
+    for c in recon.concrete_classes(repo):
+        if base not in c.mro() or c is base:
+            continue
+        init = c.find_method("__init__")
+        params = set(init.params) if init is not None else set()
+        # a parameter distribution is built from values and weights or from component distributions; a class outside
+        # the distributions module whose constructor takes neither never holds the state the operators work on
+        if c.module.name == DIST or {"values", "weights"} <= params or "distributions" in params:
+            out.append(c)
+        else:
+            other.append(c)
+    if not out:
+        raise AnalysisError("no concrete subclass of BaseDistribution found")
+    return base, sorted(out, key=lambda c: c.qualname), sorted(other, key=lambda c: c.qualname)
+
+
+def _capable_names(repo, classes, consts) -> dict:
+    """{method node id: (FuncInfo, names)}: the methods along the MRO of every ensemble class that declares
+    distribution-valued parameters, with the names (and sign/alias names) of those parameters."""
+    aliases = consts.get("polar_aliases", {})
+    if not isinstance(aliases, dict):
+        raise AnalysisError("polar_aliases is not a foldable literal")
+    out: dict = {}
+    for k in classes:
+        d = _distributions_literal(repo, k, consts)
+        if not d:
+            continue
+        names = set(d) | {a for a, s in aliases.items() if s in d}
+        for c in k.mro():
+            for defs in c.methods.values():
+                for f in defs:
+                    ent = out.setdefault(id(f.node), (f, set()))
+                    ent[1].update(names)
+    return out
+
+
+def _operand_role(n: ast.AST, f: FuncInfo, names: set) -> Optional[str]:
+    """Is `n` (inside f) a read of a parameter that may hold a distribution?  -> a stable description of its role."""
+    if not isinstance(getattr(n, "ctx", None), ast.Load):
+        return None
+    pp = f.positional_params
+    if isinstance(n, ast.Name):
+        if f.is_setter and len(pp) == 2 and n.id == pp[1] and f.name in names:
+            return "the assigned value"
+        if f.name == "__setattr__" and len(pp) == 3 and n.id == pp[2]:
+            return "the assigned value"
+        if f.name == "__init__" and n.id in names and n.id in f.params:
+            return f"the argument `{n.id}`"
+        return None
+    if isinstance(n, ast.Attribute) and isinstance(n.value, ast.Name) and pp and n.value.id == pp[0]:
+        if n.attr in names or (n.attr.startswith("_") and n.attr[1:] in names):
+            return f"self.{n.attr.lstrip('_')}"
+        return None
+    if isinstance(n, ast.Subscript) and isinstance(n.slice, ast.Constant) and n.slice.value in names and \
+            isinstance(n.value, ast.Attribute) and isinstance(n.value.value, ast.Name) and pp and n.value.value.id == pp[0]:
+        return f"the stored `{n.slice.value}`"
+    return None
+
+
+def _excluded_by_guard(node: ast.AST, par: dict, top: ast.AST, operand_text: str) -> bool:
+    """The site lies on the arm of an isinstance/hasattr test of the same operand on which it is NOT a distribution."""
+    is_param = lambda e: norm_text(e) == operand_text
+    p = par.get(id(node))
+    while p is not None and p is not top:
+        if isinstance(p, ast.If) and node is not p.test:
+            t = p.test
+            if any(isinstance(c, ast.Call) and call_name(c) in ("isinstance", "hasattr") for c in ast.walk(t)):
+                truth = _dist_truth(t, is_param)
+                in_body = any(node is s for s in p.body)
+                if truth is not None and truth != in_body:
+                    return True
+        elif isinstance(p, ast.IfExp) and node is not p.test:
+            truth = _dist_truth(p.test, is_param)
+            if truth is not None and truth != (node is p.body):
+                return True
+        node, p = p, par.get(id(p))
+    return False
+
+
+def _operator_sites(repo, scanned: dict, validate: FuncInfo):
+    """[(FuncInfo, operator node, dunder, construct)] for every unary/binary operator applied — directly, through
+    validate_distribution(...) or on the result of another such operator — to a read of a distribution-valued
+    parameter; and the calls of validate_distribution on such reads."""
+    sites, vsites = [], []
+    for f, names in sorted(scanned.values(), key=lambda t: (t[0].qualname, t[0].node.lineno)):
+        par = _parents(f.node)
+        seen: dict[str, int] = {}
+        nodes = sorted((n for n in walk_no_nested(f.node) if isinstance(n, (ast.Name, ast.Attribute, ast.Subscript))),
+                       key=lambda n: (n.lineno, n.col_offset))
+        for n in nodes:
+            role = _operand_role(n, f, names)
+            if role is None:
+                continue
+            if _excluded_by_guard(n, par, f.node, norm_text(n)):
+                continue
+            node, p = n, par.get(id(n))
+            while p is not None:
+                if isinstance(p, ast.Call) and any(a is node for a in p.args) and \
+                        repo.resolve_name(f.module, dotted(p.func) or "") is validate:
+                    vsites.append((f, p))
+                elif isinstance(p, ast.UnaryOp) and type(p.op) in _UNARY_DUNDER:
+                    dunder, word = _UNARY_DUNDER[type(p.op)]
+                    sites.append((f, p, dunder, word, role))
+                elif isinstance(p, ast.BinOp) and type(p.op) in _BINARY_DUNDER:
+                    stem, word = _BINARY_DUNDER[type(p.op)]
+                    sites.append((f, p, f"__{'r' if node is p.right else ''}{stem}__", word, role))
+                else:
+                    break
+                node, p = p, par.get(id(p))
+    out = []
+    counts: dict[str, int] = {}
+    for f, p, dunder, word, role in sites:
+        c = f"{f.qualname}{'.setter' if f.is_setter else ''}:{word} of {role}"
+        counts[c] = counts.get(c, 0) + 1
+        out.append((f, p, dunder, c if counts[c] == 1 else f"{c} #{counts[c]}"))
+    return out, vsites
+
+
+def _returns_distribution_unchanged(repo, fn: FuncInfo, d: ClassInfo):
+    """Abstractly run `fn(x)` for x an instance of the distribution class `d`: (True, text, node) when the value
+    returned on that path is the argument itself."""
+    pp = fn.positional_params
+    if len(pp) != 1:
+        raise AnalysisError(f"{fn.qualname}: expected one parameter")
+    x = pp[0]
+    df = DataFlow(fn.node)
+
+    def inst(t: ast.AST) -> bool:
+        els = t.elts if isinstance(t, ast.Tuple) else [t]
+        res = False
+        for e in els:
+            target = repo.resolve_name(fn.module, dotted(e) or "")
+            if isinstance(target, ClassInfo):
+                res = res or target in d.mro()
+            elif (dotted(e) or "").split(".")[-1] in _NEVER_A_DISTRIBUTION:
+                continue
+            else:
+                raise AnalysisError(f"{fn.qualname}: isinstance against `{norm_text(e)}` not modelled")
+        return res
+
+    def truth(t: ast.AST):
+        if isinstance(t, ast.UnaryOp) and isinstance(t.op, ast.Not):
+            r = truth(t.operand)
+            return None if r is None else not r
+        if isinstance(t, ast.BoolOp):
+            vals = [truth(v) for v in t.values]
+            if isinstance(t.op, ast.And):
+                return False if any(v is False for v in vals) else (True if all(v is True for v in vals) else None)
+            return True if any(v is True for v in vals) else (False if all(v is False for v in vals) else None)
+        if isinstance(t, ast.Call) and call_name(t) == "isinstance" and len(t.args) == 2 and dotted(t.args[0]) == x:
+            if any(dd.kind != "param" for dd in df.reaching(df.cfg.node_of(cur[0]).idx, x)):
+                raise AnalysisError(f"{fn.qualname}: `{x}` is rebound before it is tested")
+            return inst(t.args[1])
+        return None
+
+    cur: list = [None]
+
+    def run_body(body):
+        for st in body:
+            cur[0] = st
+            if isinstance(st, ast.If):
+                r = truth(st.test)
+                if r is None:
+                    raise AnalysisError(f"{fn.qualname}: test `{norm_text(st.test)[:60]}` not decided for a "
+                                        f"{d.name} argument")
+                got = run_body(st.body if r else st.orelse)
+                if got is not None:
+                    return got
+            elif isinstance(st, (ast.Return, ast.Raise)):
+                return st
+            elif isinstance(st, (ast.Assign, ast.AnnAssign, ast.AugAssign, ast.Expr, ast.Pass, ast.Assert)):
+                continue
+            else:
+                raise AnalysisError(f"{fn.qualname}: statement `{norm_text(st)[:50]}` not modelled")
+        return None
+
+    end = run_body(fn.body)
+    if end is None or isinstance(end, ast.Raise) or end.value is None:
+        return False, f"{fn.short} does not return a {d.name} argument (it " + (
+            "raises" if isinstance(end, ast.Raise) else "returns nothing") + ")", end or fn.node
+    v = end.value
+    while isinstance(v, ast.Call):  # a copy of a distribution is the same distribution (CopyMixin)
+        if isinstance(v.func, ast.Attribute) and v.func.attr == "copy" and not v.args and not v.keywords:
+            v = v.func.value
+        elif call_name(v) in ("copy", "copy.copy", "deepcopy", "copy.deepcopy") and len(v.args) == 1 and not v.keywords:
+            v = v.args[0]
+        else:
+            break
+    same = isinstance(v, ast.Name) and v.id == x and all(
+        dd.kind == "param" for dd in df.reaching(df.cfg.node_of(end).idx, x))
+    return same, f"{fn.short} returns `{norm_text(end.value)[:60]}` for a {d.name} argument", end
+
+
+def _alias_weights_rule(ctx) -> tuple[int, int]:
+    from . import c36
+
+    repo = ctx.repo
+    consts = module_constants(repo.module("abtem.transfer"))
+    base = repo.cls(DIST, "EnsembleFromDistributions")
+    classes = [c for c in recon.concrete_classes(repo) if base in c.mro()]
+    scanned = _capable_names(repo, classes, consts)
+    ctx.require(len(scanned) >= 20, f"R-ALIASWEIGHTS found only {len(scanned)} methods of classes with distribution-"
+                                     "valued parameters")
+    validate = repo.function(DIST, "validate_distribution")
+    _, dclasses, others = _distribution_classes(repo)
+    for c in others:
+        ctx.info("R-ALIASWEIGHTS", c.qualname, c.where, "subclass of BaseDistribution outside abtem.distributions whose "
+                 "constructor takes neither values/weights nor component distributions: not a parameter distribution")
+    sites, vsites = _operator_sites(repo, scanned, validate)
+
+    # ---- every operator site resolves, for every distribution class, to a method of that class
+    reached: dict[tuple[str, str], tuple[ClassInfo, FuncInfo, list[str]]] = {}
+    for f, node, dunder, construct in sites:
+        missing = []
+        for d in dclasses:
+            m = d.find_method(dunder)
+            if m is None or m.is_abstract:
+                missing.append(d.name)
+            else:
+                reached.setdefault((d.qualname, dunder), (d, m, []))[2].append(construct.split(":")[0].split(".", 2)[-1])
+        ctx.check(not missing, "R-ALIASWEIGHTS", construct, f.loc(node),
+                  f"`{norm_text(node)[:50]}` on a distribution is {dunder} of " + ", ".join(d.name for d in dclasses),
+                  f"`{norm_text(node)[:50]}` is applied to a parameter that may be a distribution, but "
+                  f"{', '.join(missing)} define{'s' if len(missing) == 1 else ''} no {dunder}: the operator raises "
+                  "TypeError for a distribution or (numpy operand) reduces it through __array__ to its bare values — "
+                  "weights and ensemble_mean are lost before the parameter is stored", key_detail="undefined")
+
+    # ---- the operator methods reached: values = op(values), weights and ensemble_mean the receiver's own
+    from ..terms import Poly as _Poly
+
+    def flat(d: ClassInfo) -> bool:
+        init = d.find_method("__init__")
+        ctx.require(init is not None, f"{d.qualname}: constructor not found")
+        return {"values", "weights"} <= set(init.params)
+
+    n_methods = 0
+    # composite distributions first: they hand the operator on to their components
+    for (_, dunder), (d, m, where) in sorted(reached.items()):
+        if flat(d):
+            continue
+        via = ", ".join(dict.fromkeys(where))
+        n_methods += 1
+        _, owner, comp, it_ok, op, ret = c36.multi_component_op(d, dunder)
+        v_, o_ = _Poly.atom("v"), _Poly.atom("o")
+        want, got = c36.operator_values(dunder, v_, o_), c36.operator_values(op, v_, o_)
+        same = want is not None and got is not None and want == got
+        ctx.check(it_ok and same, "R-ALIASWEIGHTS", f"{m.qualname}:components", m.loc(ret),
+                  f"applies {op} to every component, whose weights and flag it keeps (reached from {via})",
+                  (f"applies {op} instead of {dunder} to its components" if not same else
+                   f"maps over `{norm_text(comp.generators[0].iter)}`, not over all components")
+                  + f": a multidimensional distribution given through {via} is not stored as the distribution of "
+                  "the transformed values with the weights of the original", key_detail="components")
+        if same:
+            lost = []
+            for c in dclasses:
+                if not flat(c):
+                    continue
+                m2 = c.find_method(op)
+                if m2 is None or m2.is_abstract:
+                    lost.append(c.name)
+                else:
+                    reached.setdefault((c.qualname, op), (c, m2, []))[2].extend(where)
+            ctx.check(not lost, "R-ALIASWEIGHTS", f"{m.qualname}:component operator", m.loc(ret),
+                      f"{op} is defined by the component classes",
+                      f"{m.short} applies {op} to its components, which {', '.join(lost)} do not define",
+                      key_detail="component-undefined")
+    for (_, dunder), (d, m, where) in sorted(reached.items()):
+        if not flat(d):
+            continue
+        via = ", ".join(dict.fromkeys(where))
+        n_methods += 1
+        for detail, ok, good, bad, node in c36.operator_contract(repo, d, m):
+            if detail == "values":
+                tail = ("member i of a parameter given through it is not the run with the transformed value i "
+                        "that the scalar alias means")
+            elif detail == "weights":
+                tail = (f"a distribution given through {via} silently loses its weights — with non-uniform weights "
+                        "member i is no longer weight_i x (the scalar run) and an averaged axis is not the weighted "
+                        "mean the distribution defines")
+            else:
+                tail = (f"a distribution given through {via} does not keep its {detail}: the axis is averaged / kept "
+                        "contrary to what the user's distribution says")
+            ctx.check(ok, "R-ALIASWEIGHTS", f"{m.qualname}:{detail}", m.loc(node),
+                      f"{good} (reached from {via})", f"{bad}; {tail}", key_detail=detail)
+
+    # ---- validate_distribution hands a distribution on as it is
+    for d in dclasses:
+        ok, text, node = _returns_distribution_unchanged(repo, validate, d)
+        ctx.check(ok, "R-ALIASWEIGHTS", f"{validate.qualname}:{d.name} argument", validate.loc(node),
+                  f"returns the distribution itself ({len(vsites)} call sites on parameters of the ensemble classes)",
+                  f"{text}, not the argument itself: a distribution parameter is re-wrapped on its way into the "
+                  "transfer function and loses its weights / ensemble_mean", key_detail="rewrapped")
+    return len(sites), n_methods
+
+
+def run(ctx) -> None:  # noqa: F811
+    from ..rules import deferred
+
+    ctx.rule("R-ALIASWEIGHTS", "between the user and the kernel a distribution-valued parameter is transformed in a "
+             "few places: sign-flipping aliases (`defocus` is stored as C10 = −defocus and read back as −C10), scalings, "
+             "validate_distribution.  The places are enumerated from the code: in every method along the MRO of an "
+             "ensemble class that declares distribution parameters, each unary / binary operator applied to a read of "
+             "such a parameter (setter value, constructor argument, self.<name>, the coefficient table) — directly, "
+             "through validate_distribution or on the result of another operator.  Each operator is resolved, for every "
+             "concrete distribution class, to its dunder method through the MRO (a missing method is a violation: the "
+             "operator is undefined for distributions).  The method reached must return the receiver with the operator "
+             "applied to the VALUES only: what it hands to the class constructor — directly or through a factory "
+             "function whose defaults are applied — is values = op(receiver's values), weights = the receiver's weights "
+             "(origin, through value-preserving wrappers) and ensemble_mean = the receiver's flag; a multidimensional "
+             "distribution applies the same operator to every component.  validate_distribution returns a "
+             "distribution argument itself.  Otherwise a weighted distribution given through an alias is silently "
+             "simulated with other weights than the same distribution given through the primary name: member i is "
+             "not weight_i x (scalar run) and the averaged axis is not the weighted mean")
+
+    def new():
+        n, m = _alias_weights_rule(ctx)
+        ctx.require(n >= 2 and m >= 2, f"R-ALIASWEIGHTS found only {n} operator sites / {m} operator methods")
+
+    deferred.run(ctx, new, _inner_run_c03f)
